@@ -58,9 +58,13 @@ impl GenerationPass for LivenessPass {
                     // live_in[n] = (live_in[F_entry] & argument-registers) U (live_out[n] - kill[n])
                     // kill[n] = caller-saved
                     let live_in_temp = node.live_out() - node.kill_reg();
+                    // (live sets only ever grow: a node that is also the exit of a function keeps
+                    // what the call sites of that function added, otherwise the analysis can
+                    // oscillate forever)
                     let live_in = (func.entry().live_out() & Register::argument_set())
                         | live_in_temp
-                        | node.gen_reg();
+                        | node.gen_reg()
+                        | node.live_in();
 
                     changed |= node.set_live_in(live_in);
                     changed |= node.set_u_def(u_def);
@@ -83,7 +87,8 @@ impl GenerationPass for LivenessPass {
                     // ecall_args = X17 (a7) in every case U inputs to the ecall if known by available value analysis, otherwise empty
                     let live_in = (node.live_out() - Register::caller_saved_set())
                         | Register::ecall_always_argument_set()
-                        | args;
+                        | args
+                        | node.live_in();
                     changed |= node.set_live_in(live_in);
                     changed |= node.set_u_def(u_def);
                 } else if node.is_return()
@@ -116,7 +121,8 @@ impl GenerationPass for LivenessPass {
                     changed |= node.set_u_def(u_def);
                 } else if node.is_function_entry() {
                     // live_in[n] = gen[n] U (live_out[n] - kill[n])
-                    let live_in = (node.live_out() - node.kill_reg()) | node.gen_reg();
+                    let live_in =
+                        (node.live_out() - node.kill_reg()) | node.gen_reg() | node.live_in();
 
                     // u_def[n] = live_in[n] AND argument-registers
                     let u_def = live_in & Register::argument_set();
@@ -136,7 +142,8 @@ impl GenerationPass for LivenessPass {
                         | node.kill_reg();
 
                     // live_in[n] = gen[n] U (live_out[n] - kill[n])
-                    let live_in = (node.live_out() - node.kill_reg()) | node.gen_reg();
+                    let live_in =
+                        (node.live_out() - node.kill_reg()) | node.gen_reg() | node.live_in();
 
                     changed |= node.set_live_in(live_in);
                     changed |= node.set_u_def(u_def);
